@@ -959,12 +959,13 @@ const PERMS3: [[usize; 3]; 6] = [[0, 1, 2], [2, 1, 0], [1, 0, 2], [0, 2, 1], [1,
 fn gen_const_case(ch: &mut Chooser, tool: Tool, depth: u32) -> Option<Case> {
     let game = tool.game;
     let lang = sub_lang(tool);
-    let n = 1 + ch.pick(3);
+    // the number of consts and their declaration order are a full product (free choices)
+    let n = 1 + ch.pick_free(3);
     let types: Vec<bool> = (0..n).map(|_| ch.pick(2) == 1).collect();
     let names: Vec<String> = (0..n).map(|i| format!("K{i}")).collect();
     let mut defs: Vec<(bool, CE)> = vec![];
     for i in 0..n { let e = gen_ce(ch, types[i], depth, i, &types); defs.push((types[i], e)); }
-    let order: Vec<usize> = match n { 1 => vec![0], 2 => if ch.pick(2) == 0 { vec![0, 1] } else { vec![1, 0] }, _ => PERMS3[ch.pick(6)].to_vec() };
+    let order: Vec<usize> = match n { 1 => vec![0], 2 => if ch.pick_free(2) == 0 { vec![0, 1] } else { vec![1, 0] }, _ => PERMS3[ch.pick_free(6)].to_vec() };
     // placement: all at file level | K0 (which no other const refers to) inside the script body
     let local_last = ch.pick(2) == 1;
     let decl = |i: usize| format!("const {} {} = {};", if types[i] { "float" } else { "int" }, names[i], ce_render(&defs[i].1, &names));
@@ -1045,7 +1046,7 @@ fn enumerate_cases(thorough: bool) -> (Vec<Case>, GenStats) {
         // (d) consts
         // quick: the full const space on one format (ANM th12), a smaller bound on the others (const evaluation is format-independent)
         let full = matches!((tool.kind, tool.game), (Kind::Anm, Game::Th12));
-        let (cb, cd) = if thorough { (4, 2) } else if full { (3, 2) } else { (2, 2) };
+        let (cb, cd) = if thorough { (if full { 3 } else { 2 }, 2) } else if full { (2, 2) } else { (1, 2) };
         let st = explore_dfs(cb, scale * 8, &|ch| gen_const_case(ch, tool, cd), &mut |_, c| {
             stats.generated += 1;
             match c { Some(c) => if seen.insert((c.tool, c.src.clone())) { cases.push(c); }, None => stats.undefined_consts += 1 }
